@@ -1,3 +1,218 @@
 import B6.Driver.Common
-/-! Driver for C26 — stub (the check for this property is not built yet). -/
-def main : IO Unit := B6.Driver.run { σ := Unit, init := (), step := fun s _ _ => (s, .bad) }
+import B6.Model.Service
+import B6.Spec.ChangeSpec
+/-!
+Driver for C26.  State = the model worlds under the two roots (gRPC: `g`, UI evaluator: `u`), resynchronised
+from every `world` line, plus what the last response told the caller.
+
+ids: `p<n>` point, `w<n>` path, `x0` the invalid ID; feature = `id|k=v,k=v|ref,ref` (`-` = empty)
+  base [feature …]                => [feature …]
+  grpc <change> / ui <change>     => err | ids [id …] | plain | panic | …
+  grpc-plain / ui-plain           => plain
+  grpc-evalerr / ui-evalerr       => err
+  grpc-badver <change>            => err
+  world g / world u               => [feature …]
+change: `af N feature…` | `at N id:k=v …` | `rt N id:k …` | `mg N change…`
+
+Property predicate (evaluated on the implementation's answers, against `B6.Spec.ChangeSpec`):
+* `error-iff-apply-failed`: the answer is `err` exactly when `specApply` says the change is not applicable
+  to the world the implementation reported before the request;
+* `ids-are-the-modified-features`: an `ids` answer carries, as a set, `targets change`;
+* `told-applied-but-world-differs`: after an `ids` answer the dumped world is the reference world.
+Everything else (partial application behind an error, repetitions in the ID list, non-change requests) is
+compared with the model only (`diff`).
+-/
+open B6.Driver B6.Model.Service B6.Spec.ChangeSpec
+namespace B6.Driver.C26
+
+def kindRank : Kind → Nat
+  | .invalid => 0 | .point => 1 | .path => 2
+
+def idLe (a b : FId) : Bool :=
+  kindRank a.kind < kindRank b.kind || (kindRank a.kind == kindRank b.kind && a.val ≤ b.val)
+
+def renderId (i : FId) : String :=
+  match i.kind with
+  | .invalid => "x0"
+  | .point => "p" ++ toString i.val
+  | .path => "w" ++ toString i.val
+
+def parseId (s : String) : Option FId :=
+  match s.toList with
+  | 'x' :: _ => some ⟨.invalid, 0⟩
+  | 'p' :: rest => (String.ofList rest).toNat?.map (⟨.point, ·⟩)
+  | 'w' :: rest => (String.ofList rest).toNat?.map (⟨.path, ·⟩)
+  | _ => none
+
+def dashList (s : String) (sep : String) : List String :=
+  if s == "-" then [] else (s.splitOn sep).filter (· ≠ "")
+
+def parseKV (s : String) : Option (String × String) :=
+  match s.splitOn "=" with
+  | [k, v] => some (k, v)
+  | _ => none
+
+def parseFeature (s : String) : Option Feature :=
+  match s.splitOn "|" with
+  | [i, ts, rs] => do
+    let id ← parseId i
+    let tags ← (dashList ts ",").mapM parseKV
+    let refs ← (dashList rs ",").mapM parseId
+    some ⟨id, tags, refs⟩
+  | _ => none
+
+def sortTags (t : Tags) : Tags := t.mergeSort (fun a b => a.1 ≤ b.1)
+
+def renderFeature (f : Feature) : String :=
+  let ts := (sortTags f.tags).map fun (k, v) => k ++ "=" ++ v
+  let rs := f.refs.map renderId
+  let dash := fun (xs : List String) => if xs.isEmpty then "-" else ",".intercalate xs
+  renderId f.id ++ "|" ++ dash ts ++ "|" ++ dash rs
+
+def renderWorld (w : World) : String :=
+  renderList ((w.mergeSort (fun a b => idLe a.id b.id)).map renderFeature)
+
+def parseWorld (s : String) : Option World := do
+  let ws ← parseBracket s
+  ws.mapM parseFeature
+
+def sortIds (xs : List FId) : List FId := xs.mergeSort idLe
+
+def renderIds (xs : List FId) : String := "ids " ++ renderList ((sortIds xs).map renderId)
+
+def idSet (xs : List FId) : List FId := (sortIds xs).eraseDups
+
+/-- `id:k=v` -/
+def parseTagOp (s : String) : Option (FId × String × String) :=
+  match s.splitOn ":" with
+  | [i, kv] => do
+    let id ← parseId i
+    let (k, v) ← parseKV kv
+    some (id, k, v)
+  | _ => none
+
+/-- `id:k` -/
+def parseKeyOp (s : String) : Option (FId × String) :=
+  match s.splitOn ":" with
+  | [i, k] => do
+    let id ← parseId i
+    some (id, k)
+  | _ => none
+
+def takeN {α} (f : String → Option α) : Nat → List String → Option (List α × List String)
+  | 0, ws => some ([], ws)
+  | n + 1, w :: ws => do
+    let a ← f w
+    let (as, rest) ← takeN f n ws
+    some (a :: as, rest)
+  | _ + 1, [] => none
+
+mutual
+/-- prefix-form change parser; `fuel` bounds the nesting (the word count is enough) -/
+def parseChange : Nat → List String → Option (Change × List String)
+  | 0, _ => none
+  | fuel + 1, kind :: n :: ws => do
+    let n ← n.toNat?
+    match kind with
+    | "af" => do let (fs, rest) ← takeN parseFeature n ws; some (.addFeatures fs, rest)
+    | "at" => do let (ts, rest) ← takeN parseTagOp n ws; some (.addTags ts, rest)
+    | "rt" => do let (ts, rest) ← takeN parseKeyOp n ws; some (.removeTags ts, rest)
+    | "mg" => do let (cs, rest) ← parseChanges fuel n ws; some (.merged cs, rest)
+    | _ => none
+  | _ + 1, _ => none
+def parseChanges : Nat → Nat → List String → Option (Changes × List String)
+  | _, 0, ws => some (.nil, ws)
+  | 0, _ + 1, _ => none
+  | fuel + 1, n + 1, ws => do
+    let (c, rest) ← parseChange fuel ws
+    let (cs, rest') ← parseChanges fuel n rest
+    some (.cons c cs, rest')
+end
+
+def parseWholeChange (ws : List String) : Option Change :=
+  match parseChange (ws.length + 2) ws with
+  | some (c, []) => some c
+  | _ => none
+
+structure St where
+  g : World := []
+  u : World := []
+  gTold : Option World := none
+  uTold : Option World := none
+
+def renderResp : Resp → String
+  | .error => "err"
+  | .plain => "plain"
+  | .ids xs => renderIds xs
+
+/-- the verdict for a change request: predicate first, then the comparison with the model -/
+def judgeChange (w : World) (c : Change) (model : World × Resp) (impl : String) : Verdict × Option World :=
+  let spec := specApply w c
+  let m := renderResp model.2
+  if impl == "err" then
+    if spec.isNone then (if impl == m then .ok else .diff m, none)
+    else (.propfail "error-iff-apply-failed", none)
+  else if impl.startsWith "ids " then
+    match spec with
+    | none => (.propfail "error-iff-apply-failed", none)
+    | some ws =>
+      match (parseBracket (sdrop impl 4)).bind (·.mapM parseId) with
+      | none => (.propfail "ids-are-the-modified-features", some ws)
+      | some xs =>
+        if idSet xs == idSet (targets c) then (if impl == m then .ok else .diff m, some ws)
+        else (.propfail "ids-are-the-modified-features", some ws)
+  else (.propfail "error-iff-apply-failed", none)
+
+def plainVerdict (impl model : String) : Verdict := if impl == model then .ok else .diff model
+
+def step (st : St) (op impl : String) : St × Verdict :=
+  match words op with
+  | "base" :: _ =>
+    match parseWorld (sdrop op 5) with
+    | some w => ({ g := w, u := w }, plainVerdict impl (renderWorld w))
+    | none => (st, .bad)
+  | "grpc" :: ws =>
+    match parseWholeChange ws with
+    | none => (st, .bad)
+    | some c =>
+      let m := grpcEvaluate true st.g (.change c)
+      let (v, told) := judgeChange st.g c m impl
+      ({ st with g := m.1, gTold := told }, v)
+  | "ui" :: ws =>
+    match parseWholeChange ws with
+    | none => (st, .bad)
+    | some c =>
+      let m := uiEvaluate st.u (.change c)
+      let (v, told) := judgeChange st.u c m impl
+      ({ st with u := m.1, uTold := told }, v)
+  | ["grpc-plain"] => ({ st with gTold := none }, plainVerdict impl (renderResp (grpcEvaluate true st.g .plain).2))
+  | ["ui-plain"] => ({ st with uTold := none }, plainVerdict impl (renderResp (uiEvaluate st.u .plain).2))
+  | ["grpc-evalerr"] => ({ st with gTold := none }, plainVerdict impl (renderResp (grpcEvaluate true st.g .error).2))
+  | ["ui-evalerr"] => ({ st with uTold := none }, plainVerdict impl (renderResp (uiEvaluate st.u .error).2))
+  | "grpc-badver" :: ws =>
+    match parseWholeChange ws with
+    | none => (st, .bad)
+    | some c =>
+      let m := grpcEvaluate false st.g (.change c)
+      ({ st with g := m.1, gTold := none }, plainVerdict impl (renderResp m.2))
+  | ["world", which] =>
+    if which != "g" && which != "u" then (st, .bad) else
+    let (cur, told) := if which == "g" then (st.g, st.gTold) else (st.u, st.uTold)
+    match parseWorld impl with
+    | none => (st, .diff (renderWorld cur))
+    | some wi =>
+      let ci := renderWorld wi
+      let v : Verdict :=
+        match told with
+        | some ws =>
+          if ci != renderWorld ws then .propfail "told-applied-but-world-differs"
+          else if ci != renderWorld cur then .diff (renderWorld cur) else .ok
+        | none => if ci != renderWorld cur then .diff (renderWorld cur) else .ok
+      (if which == "g" then { st with g := wi, gTold := none } else { st with u := wi, uTold := none }, v)
+  | _ => (st, .bad)
+
+def family : Family := { σ := St, init := {}, step := step }
+
+end B6.Driver.C26
+
+def main : IO Unit := B6.Driver.run B6.Driver.C26.family
